@@ -145,48 +145,21 @@ func parsePacket(a *adapterctrl.IBCAdapter, port, channel string, data []byte) (
 	return out, built
 }
 
-// ics20View is an independent reading of the packet data: ordered JSON tree, string members only.
-// ok is false when the reading is not clear-cut (not an object, repeated or non-string members),
-// in which case only the robustness half of the oracle applies.
+// ics20View is the packet data as the wrapped ICS-20 application reads it (its own proto-JSON
+// codec, pinned third-party code): that reading decides who the receiver is, which memo the
+// orbiter must judge and which coin is credited. ok is false when the application cannot decode
+// the data at all (it would refuse the packet).
 type ics20View struct {
 	denom, amount, receiver, memo string
 	ok                            bool
 }
 
 func viewICS20(data []byte) ics20View {
-	root, err := memo.ParseJSON(string(data))
-	if err != nil || root.Kind != memo.JObj {
+	var ref transfertypes.FungibleTokenPacketData
+	if err := transfertypes.ModuleCdc.UnmarshalJSON(data, &ref); err != nil {
 		return ics20View{}
 	}
-	v := ics20View{ok: true}
-	seen := map[string]bool{}
-	for _, kv := range root.Obj {
-		if seen[kv.K] {
-			return ics20View{}
-		}
-		seen[kv.K] = true
-		var dst *string
-		switch kv.K {
-		case "denom":
-			dst = &v.denom
-		case "amount":
-			dst = &v.amount
-		case "receiver":
-			dst = &v.receiver
-		case "memo":
-			dst = &v.memo
-		case "sender":
-			var s string
-			dst = &s
-		default:
-			return ics20View{} // unknown member: the codec's own business
-		}
-		if kv.V.Kind != memo.JString {
-			return ics20View{}
-		}
-		*dst = kv.V.Str
-	}
-	return v
+	return ics20View{denom: ref.Denom, amount: ref.Amount, receiver: ref.Receiver, memo: ref.Memo, ok: true}
 }
 
 func isOrbiterReceiver(r string) bool {
@@ -234,17 +207,14 @@ func CheckPacket(data []byte, port, channel string, aspect Aspect) (class string
 	v := viewICS20(data)
 	if !v.ok {
 		if accepted {
-			return "accepted/unclear-json", nil
+			return "accepted", fmt.Errorf("parsed as an orbiter packet data that the ICS-20 application itself cannot decode")
 		}
-		return "refused/unclear-json", nil
+		return "refused/not-ics20", nil
 	}
 	toOrbiter := isOrbiterReceiver(v.receiver)
 	if !accepted {
 		if aspect != AspectCoin && toOrbiter && errors.Is(r1.err, core.ErrNoOrbiterPacket) {
-			var ref transfertypes.FungibleTokenPacketData
-			if transfertypes.ModuleCdc.UnmarshalJSON(data, &ref) == nil {
-				return "refused", fmt.Errorf("an ICS-20 packet whose receiver decodes to the orbiter account is classified as not for the orbiter (it would be credited to the account and left there): %v", r1.err)
-			}
+			return "refused", fmt.Errorf("an ICS-20 packet whose receiver decodes to the orbiter account is classified as not for the orbiter (it would be credited to the account and left there): %v", r1.err)
 		}
 		if toOrbiter {
 			return "refused/orbiter", nil
